@@ -120,7 +120,15 @@ fn small_case(case: &mut Case, max_n: usize, thread_choices: &[usize]) {
         for _ in 0..2 {
             let threads = *case.rng.pick(thread_choices);
             let cfg = RunCfg { threads, ..RunCfg::default() };
-            let out = run_checker(&model, strategy, &cfg, false);
+            let out = if strategy == Strategy::OnDemand && case.rng.pct(50) {
+                // targeted requests first, then run to completion: still a run-to-completion check
+                case.add("runs_on_demand_with_requests_first", 1);
+                let mut rq = case.rng.fork();
+                let k = rq.range(1, 8);
+                run_on_demand_stepwise(&model, &cfg, &mut rq, k, false)
+            } else {
+                run_checker(&model, strategy, &cfg, false)
+            };
             case.add(&format!("runs_{}_t{}", strategy.name(), threads), 1);
             case.add("states_visited", out.visited_states.len() as u64);
             check_exhaustive_run(case, &model, &reach, strategy, threads, &out, true);
